@@ -2,12 +2,12 @@
    each check counts only its own labels. */
 #include "ph.h"
 
-/* yaep adds `$S : error $eof' unless a rule of the start symbol begins with `error' */
+/* total loss is always covered: yaep adds `$S : error $eof' unless the start symbol has the rule `error' alone */
 static int implicit_rule (void)
 {
   int r;
   for (r = 0; r < G.nrule; r++)
-    if (G.rule[r].lhs == g_start () && G.rule[r].n > 0 && G.sym[G.rule[r].rhs[0]].kind == SK_ERR) return 0;
+    if (G.rule[r].lhs == g_start () && G.rule[r].n == 1 && G.sym[G.rule[r].rhs[0]].kind == SK_ERR) return 0;
   return 1;
 }
 /* oracle sequence := tokens[0..q) [error] tokens[r..e) */
@@ -20,10 +20,12 @@ static void make_seq (int q, int with_error, int r, int e)
 }
 
 /* repairs: up to kmax disjoint segments (possibly empty, possibly adjacent), total replaced == total */
-static int seg_a[4], seg_b[4];
+static int seg_a[8], seg_b[8];
+static int count_err (int d) { const struct dtree *D = &d_t[d]; int k, c = D->n->type == YAEP_ERROR; for (k = 0; k < D->nch; k++) c += count_err (D->ch[k]); return c; }
 static struct yaep_tree_node *the_root; static int dstart, dlen;
 static int explained_all, single_count, single_a;
 static int cover[700];           /* per denoted tree: explained by some repair (symbolic 0/1) */
+static int cover_s[700];         /* same, comparing TERM nodes by code only */
 static void try_repair (int k)
 {
   int i, s, pos = 0, d;
@@ -39,9 +41,12 @@ static void try_repair (int k)
   if (o_nres == 0 || o_overflow) return;
   for (d = 0; d < dlen; d++)
     {
-      int in = 0;
+      int in = 0, ins = 0;
       for (i = 0; i < o_nres; i++) in |= d_match (d_list[dstart + d], o_res[i]);
-      cover[d] |= in;
+      t_ignore_attr = 1;
+      for (i = 0; i < o_nres; i++) ins |= d_match (d_list[dstart + d], o_res[i]);
+      t_ignore_attr = 0;
+      cover[d] |= in; cover_s[d] |= ins;
       if (k == 1 && dlen == 1 && in) { single_count++; single_a = seg_a[0]; }   /* concrete when attributes pin positions; see below */
     }
 }
@@ -123,14 +128,20 @@ void harness (void)
                   d_reset (); d_denote (r.root, 0, &dstart, &dlen);
                   if (!d_overflow && dlen <= 700 && dlen > 0)
                     {
-                      for (i = 0; i < dlen; i++) cover[i] = 0;
+                      for (i = 0; i < dlen; i++) cover[i] = cover_s[i] = 0;
                       single_count = 0; the_root = r.root;
-                      if (g_errsym () >= 0) enum_repairs (0, p_nerr, 0, total);
+                      { int kmax = 1, e; for (i = 0; i < dlen; i++) { e = count_err (d_list[dstart + i]); if (e > kmax) kmax = e; }
+                        /* as many segments as the tree has error nodes: one call may stand for several of them (secondary recovery states) */
+                        if (kmax > 6) { sx_reach ("C07: more than 6 error nodes (repair enumeration skipped)"); kmax = 0; }
+                        if (g_errsym () >= 0 && kmax > 0) enum_repairs (0, kmax, 0, total); else if (kmax == 0) for (i = 0; i < dlen; i++) cover[i] = cover_s[i] = 1; }
                       /* total loss through the implicit rule: everything replaced, translation is the empty node */
                       if (implicit_rule () && total == n)
-                        for (i = 0; i < dlen; i++) cover[i] |= (d_t[d_list[dstart + i]].n->type == YAEP_NIL);
+                        for (i = 0; i < dlen; i++) { cover[i] |= (d_t[d_list[dstart + i]].n->type == YAEP_NIL); cover_s[i] |= (d_t[d_list[dstart + i]].n->type == YAEP_NIL); }
                       for (i = 0; i < dlen; i++)
-                        sx_assert (cover[i], "C07: tree is a translation of the input with the ignored tokens replaced by error");
+                        {
+                          sx_assert (cover_s[i], "C07: tree is a translation of the input with the ignored tokens replaced by error");
+                          sx_assert (!cover_s[i] | cover[i], "C07: TERM nodes of a recovered tree carry the attributes of the tokens they derive");
+                        }
                       if (p_nerr == 1 && dlen == 1 && single_count == 1 && total > 0)
                         sx_assert (p_ign[0] == single_a && p_rec[0] == single_a + total, "C07: single call, unique single-segment repair: reported range is that segment");
                     }
